@@ -90,6 +90,8 @@ type mgResp struct {
 	T0        int64  `json:"t0"` // wall clock around the call (MCP: the store's clock is the wall clock)
 	T1        int64  `json:"t1"`
 	Err       string `json:"err,omitempty"`
+	Audit     []string `json:"audit,omitempty"` // MCP: "result" of every audit record the call appended ("?" for a line that is not JSON)
+	AuditSet  bool     `json:"audit_captured"`
 }
 
 type mgGroupOut struct {
@@ -354,11 +356,25 @@ func mgGroupRun(dir string, g mgGroup) (out mgGroupOut) {
 			continue
 		}
 		resp.T0 = time.Now().UnixNano()
+		var auditBuf bytes.Buffer
 		frames, err := rpcCall(func(i io.Reader, o io.Writer) *mcp.Server {
-			return newMcpServer(i, o, io.Discard, cfgPath, dbPath, filepath.Join(dir, "pid"), set)
+			return newMcpServer(i, o, &auditBuf, cfgPath, dbPath, filepath.Join(dir, "pid"), set)
 		}, []any{map[string]any{"jsonrpc": "2.0", "id": 7, "method": "tools/call",
 			"params": map[string]any{"name": call.Tool, "arguments": args}}})
 		resp.T1 = time.Now().UnixNano()
+		resp.AuditSet = true
+		for _, line := range strings.Split(strings.TrimSpace(auditBuf.String()), "\n") {
+			if strings.TrimSpace(line) == "" {
+				continue
+			}
+			var rec map[string]any
+			if json.Unmarshal([]byte(line), &rec) != nil {
+				resp.Audit = append(resp.Audit, "?")
+				continue
+			}
+			res, _ := rec["result"].(string)
+			resp.Audit = append(resp.Audit, res)
+		}
 		if err != nil || len(frames) != 1 {
 			resp.Err = fmt.Sprintf("rpc: %v (%d frames)", err, len(frames))
 			out.McpResps = append(out.McpResps, resp)
